@@ -190,6 +190,9 @@ type Spec struct {
 	GenesisVaults    [][3]uint64 `json:"genesis_vaults"`
 	CrossDelegations [][3]uint64 `json:"cross_delegations"` // (from user idx, to entity idx, amount)
 	Debonding        [][3]uint64 `json:"debonding"`         // (from user idx, to entity idx, amount) at epoch base+1..
+	// EntityCommission: per entity, the commission rate of a commission schedule that is in force from genesis (0 = the
+	// account has no schedule and pays the minimum rate).
+	EntityCommission []uint64 `json:"entity_commission,omitempty"`
 	// DebondChains: further genesis debonding delegations (delegator: entity idx, or 1000+user idx; escrow entity idx;
 	// amount; end epoch = base-1+offset) - lets an account be the escrow of one entry and the delegator of another that
 	// matures at the same transition.
@@ -410,6 +413,12 @@ func BuildGenesis(spec *Spec) (*World, error) {
 		a := acct(ek.Address())
 		a.General.Balance = q(spec.General[i])
 		_ = total.Add(&a.General.Balance)
+		if i < len(spec.EntityCommission) && spec.EntityCommission[i] > 0 && spec.EntityCommission[i] >= spec.MinCommission {
+			a.Escrow.CommissionSchedule = staking.CommissionSchedule{
+				Rates:  []staking.CommissionRateStep{{Start: 0, Rate: q(spec.EntityCommission[i])}},
+				Bounds: []staking.CommissionRateBoundStep{{Start: 0, RateMin: q(spec.MinCommission), RateMax: q(100000)}},
+			}
+		}
 		if spec.SelfStake[i] > 0 {
 			a.Escrow.Active.Balance = q(spec.SelfStake[i])
 			a.Escrow.Active.TotalShares = q(spec.SelfShares[i])
